@@ -87,8 +87,8 @@ def explore_entry(ix, entry, classes, reuse=False, track_p2=True):
         if not track_p2:
             return
         g = st.ghost
-        if ev[0] == "iter" and ev[2] == "lines":
-            g["cur"] = ev[3].cls
+        if ev[0] == "iter" and PM.is_lines(ev[2]):
+            g["cur"] = PM.line_of(ev[3]).cls
         elif ev[0] == "new":
             kind = ev[1]
             if kind in STATEMENTS:
@@ -186,7 +186,7 @@ def _check_exits(chk, ix, entry, it, outs, p2, rules, func):
                 chk.ok("E1", None, nontrivial_key=(entry, "return"))
             continue
         cls = v.clsname()
-        lines = [p for p in s.path if "next lines element" in p]
+        lines = [p for p in s.path if "next lines element" in p or "(lines) element" in p]
         sentence = " ".join(p.rsplit(": ", 1)[1] for p in lines[-12:])
         if v.internal is not None or cls != "ParserError":
             rule = "E1" if v.internal is not None or cls in ("AttributeError", "IndexError", "KeyError", "AssertionError", "TypeError") else "E3"
